@@ -154,3 +154,44 @@ Definition closed_m : json -> pmode -> list string -> option (list string) :=
 (* self-contained: every reference is to a name defined earlier inside the schema itself *)
 Definition closed (j : json) : bool :=
   match closed_m j PSchema [] with Some _ => true | None => false end.
+
+(** the same check relative to a table: a reference is also fine when [extra] accepts it
+    (used with "is not a key of the table": nothing the inliner could have done about it) *)
+Definition closed_g (extra : string -> bool) : json -> pmode -> list string -> option (list string) :=
+  jfold
+    (fun j m defined =>
+       match m, j with
+       | PSchema, JStr s => if is_prim s || mem s defined || extra s then Some defined else None
+       | PSchema, _ => Some defined
+       | _, _ => None
+       end)
+    (fun _ rs m defined =>
+       match m with
+       | PSchema => ofold (map (fun r => r PSchema) rs) defined
+       | PFields => ofold (map (fun r => r PField) rs) defined
+       | PField => None
+       end)
+    (fun kv rs m defined =>
+       match m with
+       | PField => osub "type" rs PSchema defined
+       | PFields => None
+       | PSchema =>
+           match jget "type" kv with
+           | Some (JStr t) =>
+               let d0 := define kv t defined in
+               if String.eqb t "array" then osub "items" rs PSchema d0
+               else if String.eqb t "map" then osub "values" rs PSchema d0
+               else if String.eqb t "record" || String.eqb t "error" then
+                 match jget "fields" kv with
+                 | Some (JArr _) => osub "fields" rs PFields d0
+                 | _ => None
+                 end
+               else Some d0
+           | Some _ => Some defined
+           | None => None
+           end
+       end).
+
+(* every reference follows its definition or names a type the table does not know *)
+Definition closed_rel (tbl : named) (j : json) : bool :=
+  match closed_g (fun s => negb (jhas s tbl)) j PSchema [] with Some _ => true | None => false end.
